@@ -60,6 +60,8 @@ async def write(src: StreamWrapper, dst: StreamWrapper, bufsize: int) -> None:
             if isinstance(src, StreamWrapper)
             else src.read(bufsize)
         )
+        if len(buf) == 0:
+            raise tarfile.ReadError("unexpected end of data")
         bufsize -= len(buf)
         await dst.write(buf) if isinstance(dst, StreamWrapper) else dst.write(buf)
 
